@@ -19,6 +19,7 @@ import (
 	"os"
 	"strconv"
 	"sync"
+	"time"
 )
 
 type vReplayFile struct {
@@ -164,7 +165,7 @@ func vObserve(label string, vals ...interface{}) {
 	fmt.Println("VERIF-OBSERVE:", label, fmt.Sprint(vals...))
 }
 func vYield()   {}
-func vQuiesce() {}
+func vQuiesce() { time.Sleep(150 * time.Millisecond) }
 func vAnd(a, b bool) bool         { return a && b }
 func vOr(a, b bool) bool          { return a || b }
 func vImplies(a, b bool) bool     { return !a || b }
